@@ -199,6 +199,7 @@ def base_specs(quick):
     e1 = [{"K": 2, "M": 2, "N": 1}]
     out.append(("mm/MKN", {"decl": decl, "exprs": [mm], "mapping": {"loop-order": {"Z": ["M", "K", "N"]}}}, e1))
     out.append(("mm/KMN", {"decl": decl, "exprs": [mm], "mapping": {"loop-order": {"Z": ["K", "M", "N"]}}}, e1))
+    out.append(("mm/KMN-slip", {"decl": decl, "exprs": [mm], "mapping": {"loop-order": {"Z": ["K", "M", "N"]}}, "_slip": True}, e1))
     out.append(("mm/shape", {"decl": decl, "exprs": [mm], "mapping": {
         "partitioning": {"Z": {"K": ["uniform_shape(2)"]}}, "loop-order": {"Z": ["K1", "M", "N", "K0"]}}}, [{"K": 3, "M": 2, "N": 1}]))
     out.append(("mm/occ", {"decl": decl, "exprs": [mm], "mapping": {
@@ -227,6 +228,15 @@ def base_specs(quick):
                         "mapping": {"loop-order": {"Z": ["M", "K"]}}}, [{"K": 2, "M": 2}]))
     out.append(("mm3/KM", {"decl": d2, "exprs": [E("Z", ["m"], times(T("A", "k", "m"), T("B", "k", "m"), T("C", "k")))],
                            "mapping": {"loop-order": {"Z": ["K", "M"]}}}, [{"K": 2, "M": 2}]))
+    # three factors over different rank sets (the order of follower payloads matters), K outermost
+    dx = {"A": ["K", "M"], "B": ["K", "N"], "C": ["K"], "Z": ["M", "N"]}
+    out.append(("mm3x", {"decl": dx, "exprs": [E("Z", ["m", "n"], times(T("A", "k", "m"), T("B", "k", "n"), T("C", "k")))],
+                         "mapping": {"loop-order": {"Z": ["K", "M", "N"]}}}, [{"K": 2, "M": 2, "N": 1}]))
+    # the same component can be bound in two Einsums of a cascade, with different parameters
+    dcas = {"A": ["K", "M"], "B": ["K", "N"], "T": ["M", "N"], "Z": ["N", "M"]}
+    out.append(("cas2", {"decl": dcas, "exprs": [E("T", ["m", "n"], times(T("A", "k", "m"), T("B", "k", "n"))),
+                                                 E("Z", ["n", "m"], times(T("A", "k", "m"), T("B", "k", "n")))],
+                         "mapping": {"loop-order": {"T": ["K", "M", "N"], "Z": ["K", "N", "M"]}}}, [{"K": 2, "M": 2, "N": 1}]))
     d3 = {"A": ["M"], "B": ["M"], "Z": ["M"]}
     out.append(("sum", {"decl": d3, "exprs": [E("Z", ["m"], times(T("A", "m")), times(T("B", "m")))], "mapping": {"loop-order": {"Z": ["M"]}}}, [{"M": 3}]))
     # gamma-like cascade: take, then a reduction with a swizzled intermediate (merger)
@@ -241,6 +251,7 @@ def base_specs(quick):
 
 def with_hw(spec, per_einsum_bindings, layouts, bits="cp", instances=("single", 3, 1), freq=1009, bw=521):
     s = copy.deepcopy(spec)
+    s.pop("_slip", None)
     s["architecture"] = architecture(instances, freq, bw)
     s["bindings"] = {}
     fm = {}
@@ -251,6 +262,8 @@ def with_hw(spec, per_einsum_bindings, layouts, bits="cp", instances=("single", 
         lo = ((spec.get("mapping") or {}).get("loop-order") or {}).get(o)
         if lo:
             st[o] = {"space": [lo[-1]], "time": list(lo[:-1])}
+            if spec.get("_slip"):
+                st[o]["opt"] = "slip"
     for (o, t), (init, final) in layouts.items():
         # one format per distinct in-loop layout of a tensor ('default' = layout in the first Einsum that touches it)
         if final:
@@ -314,7 +327,14 @@ def configs(quick, maxb=None):
             for o in names:
                 if quick and len(opts[o]) > 12:
                     opts[o] = opts[o][:: max(1, len(opts[o]) // 12)]
-            for combo in itertools.product(*[opts[o] for o in names]):
+            combos = list(itertools.product(*[opts[o] for o in names]))
+            # the same component bound in several Einsums with different parameters: every combination of intersector /
+            # sequencer entries across the Einsums
+            shared = {o: [i for i, m in enumerate(menus[o]) if m[0].startswith(("is", "seq"))] for o in names}
+            for combo in itertools.product(*[shared[o] for o in names]):
+                if combo not in combos:
+                    combos.append(combo)
+            for combo in combos:
                 per = {}
                 labels = []
                 for o, i in zip(names, combo):
